@@ -171,6 +171,13 @@ def generate(rng, family, package_dir, events=2000, vary=True, shipped_n=False):
         for section in find_section_with(sections, "chain_time"):
             sections[section]["chain_time"] = repr(chain)
             set_out.setdefault(section, {})["chain_time"] = repr(chain)
+    if vary and "system_length" in sections.get("HypercubicSetting", {}) and not spec.get("lattice") and (
+            rng.random() < 0.4):
+        # the box length is free in every shipped configuration (a cube); values whose square is not an integer and
+        # grids on which k * side / side does not round back onto k
+        current = float(sections["HypercubicSetting"]["system_length"])
+        factor = rng.choice([1.5, 2.5, 3.3, 1.86, 1.3, 0.8 if "atoms" in family else 1.1])
+        set_out.setdefault("HypercubicSetting", {})["system_length"] = repr(round(current * factor, 6))
     if vary and spec.get("veto") and sections.get("LeafUnitCellVetoEventHandler", {}).get(
             "estimator") == "inner_point_estimator" and rng.random() < 0.3:
         # the other single-point estimator (same options): never used by a shipped configuration
@@ -225,6 +232,9 @@ def generate(rng, family, package_dir, events=2000, vary=True, shipped_n=False):
                 layers = 1
                 # a cell-veto system needs at least one cell outside the nearby ones in every direction
                 cells = [rng.randint(4 if spec.get("veto") else 3, 6) for _ in range(dim)]
+                if rng.random() < 0.25:
+                    # finer grids in some directions (k * side / side does not round back onto k on every grid)
+                    cells = [rng.choice([c, 7, 8, 9, 11]) for c in cells]
                 set_out.setdefault("CuboidPeriodicCells", {})["cells_per_side"] = ", ".join(map(str, cells))
             if spec.get("occupants") and "SingleActiveCellOccupancy" in sections and rng.random() < 0.6:
                 set_out.setdefault("SingleActiveCellOccupancy", {})["maximum_number_occupants"] = str(
